@@ -16,7 +16,7 @@ REPO = os.environ.get("VERIF_REPO", "/repo")
 COQ = os.path.join(VERIF, "coq")
 BUILD = os.path.join(VERIF, "build")
 PY = "/venv/bin/python"
-NPROC = os.cpu_count() or 4
+NPROC = int(os.environ.get("VERIF_NPROC", "0") or 0) or os.cpu_count() or 4
 
 HYGIENE_RE = re.compile(
     r"\b(Admitted|admit|Axiom|Axioms|Parameter|Parameters|Conjecture|Conjectures|Unset\s+Guard|"
